@@ -316,14 +316,23 @@ class DGen:
         pbody = [A.Print([A.Str('p')])]
         if self.chance(0.5):
             # a label (or line number) of its own inside the procedure
-            pbody = [A.LabelDef(self.pick(['pl9z', 7000])),
-                     A.Print([A.Str('p')])]
+            plab = self.pick(['pl9z', 7000])
+            pbody = [A.LabelDef(plab), A.Print([A.Str('p')])]
             self.note('label_inside_procedure')
+            if self.chance(0.6):
+                # ... and a RESTORE to it from inside the procedure: it
+                # continues with the first DATA statement after that label,
+                # i.e. the DATA that follows the procedure (if any)
+                zr = A.LV('zr$', [], [], '$')
+                pbody += [A.Restore(plab), A.Read([zr]),
+                          A.Print([A.Str('r'), ';', zr])]
+                body.insert(self.i(0, len(body) - 1), A.CallSub('zq', []))
+                self.note('restore_label_inside_procedure')
         proc = A.Proc('sub', 'zq', [], False, pbody)
         if after_proc:
             self.note('data_after_procedure')
             return A.Program(body + [proc] + after_proc)
-        if self.chance(0.3):
+        if self.chance(0.3) or any(isinstance(x, A.CallSub) for x in body):
             return A.Program(body + [proc])
         return A.Program(body)
 
